@@ -132,12 +132,19 @@ def run(ctx):
         name = h["name"]
         if name.startswith("endless-request-line"):
             continue
-        if h.get("crashed"):
+        if name == "blackhole-setup":
+            ctx.violation("setup:blackhole-listener", {"kind": "hostile", "name": name, "unchecked": "dials pending at the end of their context"}, False,
+                          "the child could not build a listener that drops SYNs (%s): the dial-pending streams were not run" % h.get("note", ""))
+        elif h.get("crashed"):
             ctx.violation("crash:%s@%s" % (name, h["listener"]), {"kind": "hostile", "name": name}, True,
                           "proxy process died on hostile stream %s (%s listener): %s" % (name, h["listener"], h.get("exit_text", "")[:300]))
         elif h.get("listener") == "origin" and h.get("verdict") == "malformed":
             ctx.violation("malformed-relay:%s" % name, {"kind": "hostile", "name": name}, True,
                           "hostile origin reply %s: the client received bytes that are not a well-formed HTTP response: %r" % (name, h.get("reply", "")[:120]))
+        elif h.get("want") and h.get("status") != h["want"]:
+            ctx.violation("status:%s@%s" % (name, h["listener"]), {"kind": "hostile", "name": name}, True,
+                          "%s (%s listener): the client got %s %s where the statement requires %s: %r" % (
+                              name, h["listener"], h.get("verdict"), h.get("status"), h["want"], h.get("reply", "")[:120]))
         elif not h.get("probe_ok"):
             ctx.violation("unresponsive:%s@%s" % (name, h["listener"]), {"kind": "hostile", "name": name}, True,
                           "after hostile stream %s (%s listener) a probe request was not served: %s" % (name, h["listener"], h.get("probe_text", "")))
